@@ -1,7 +1,7 @@
 use rowan::Checkpoint;
 
 use crate::{
-    grammar::{delimited, r#type, value},
+    grammar::{r#type, value},
     parser::Parser,
     syntax_kind::SyntaxKind,
     token_kind::TokenKind,
@@ -276,7 +276,17 @@ pub(super) fn opt_template_arg_list(p: &mut Parser) {
 // TemplateArgList ::= "<" TemplateArgDecl ( "," TemplateArgDecl )* ">"
 pub(super) fn template_arg_list(p: &mut Parser) {
     p.start_node(SyntaxKind::TemplateArgList);
-    delimited(p, T![<], T![>], T![,], template_arg_decl);
+    p.expect(T![<]);
+    if p.at(T![>]) {
+        p.error("expected template argument declaration");
+    }
+    while !p.at(T![>]) && !p.eof() {
+        template_arg_decl(p);
+        if !p.eat_if(T![,]) {
+            break;
+        }
+    }
+    p.expect(T![>]);
     p.finish_node();
 }
 
